@@ -41,6 +41,8 @@ each edge whose inputs_/outputs_/out-edges changed and `po ready=..` (the edges 
     added: new want_ entries; ready: edges outside want_ that became outputs_ready; walk: a simulation of
     AddSubTarget's dyndep_walk + the dyndep node's out-edges).  The model performs the bookkeeping and checks
     every fact it can (PlanDefs.apply_load); `outputs_ready` is compared with every `po` line as well.
+  * the harness also dumps the plan state when Build() returns (except after an interrupt), so the event before
+    the exit -- a load made while draining after a failure included -- is compared like any other;
   * dyndep_walk is a std::set<Edge*>: its iteration order (heap addresses) is not in the trace and does show
     in which pool edge gets delayed; ascending ids first, then the same search as for phony starts.
 """
